@@ -634,14 +634,19 @@ start:
 						} else {
 							s.setOuter(tuple.Tag, MaybeNil)
 						}
-						s.setOuter(v, s.get(tuple.Tag).Inner)
+						// In the default branch, the extracted value is the
+						// switched-over interface value itself.
+						s.set(v, s.get(tuple.Tag))
 					} else {
 						// There is no Extract for the 'untyped nil' case,
 						// which means that executing any Extract from a type
 						// switch implies that the switched-over value wasn't a
 						// nil interface value.
 						s.setOuter(tuple.Tag, NeverNil)
-						typ := tuple.Conds[idx]
+						// In a case listing several types, the extracted value
+						// has the type of the switched-over value, not that of
+						// the matching type.
+						typ := v.Type()
 						if types.IsInterface(typ) && !typeparams.IsTypeParam(typ) {
 							// Succesfully type asserting to an interface type
 							// always produces a non-nil interface value.
